@@ -16,7 +16,7 @@ func init() {
 		Title: "Every call returns promptly once its context ends, whatever the nodes are doing",
 		Run:   runC08,
 		Meta: core.PropertyMeta{
-			Explanation: "'Bounded delay' is not statically decidable; what is decided is that no wait on a call's path ignores the call's context (a ctx-blind unbounded wait plus the node behaviour that triggers it is a hang). B1: every blocking operation reachable on the caller's goroutine from each of the six context-taking entry points (through enqueue, the reply loops and the one-way waits; interprocedural over resolved static callees with parameter binding) is a select with a case on Done() of the call's own context parameter, a send on a reply channel whose capacity side condition is C05-M6/C09-W3, or the acquisition of a mutex whose critical sections are short (C09-W1). B2: the same for the per-call goroutines (handleAsyncCall, handleCorrectableCall) including their deferred calls. B3: in sendMsg the request's ctx.Err() test dominates the stream write, a watcher goroutine started on every path before the write selects on the request's Done() and cancels the stream's context, and close(done) is passed on every path after the go statement. B4: on the context edge RPCCall returns ctx.Err() of its own parameter.",
+			Explanation: "'Bounded delay' is not statically decidable; what is decided is that no wait on a call's path ignores the call's context (a ctx-blind unbounded wait plus the node behaviour that triggers it is a hang). B1: every blocking operation reachable on the caller's goroutine from each of the six context-taking entry points (through enqueue, the reply loops and the one-way waits; interprocedural over resolved static callees with parameter binding) is a select with a case on Done() of the call's own context parameter, a send on a reply channel whose capacity side condition is C05-M6/C09-W3, or the acquisition of a mutex whose critical sections are short (C09-W1). B2: the same for the per-call goroutines (handleAsyncCall, handleCorrectableCall) including their deferred calls. B3: in sendMsg the request's ctx.Err() test dominates the stream write, a watcher goroutine started on every path before the write selects on the request's Done() and cancels the stream's context, and close(done) is passed on every path after the go statement. B4: on the context edge RPCCall returns ctx.Err() of its own parameter. B6 (known finding): enqueue takes responseMut before it observes the caller's context while a delivery to a running streaming call can wait under that lock.",
 			NotDecided:  "Actual latency; gRPC's reaction time to stream cancellation; fairness of select; waits of calls queued behind a sender that is blocked in a transport-bounded operation (dial with timeout, stream creation).",
 			Trusted:     append([]string{"cancelling a gRPC stream's context unblocks SendMsg/RecvMsg", "C09-W1/W3 (critical sections under responseMut are short)"}, commonTrust...),
 		},
